@@ -17,7 +17,7 @@ def make_infeasible(p, rng):
     ft = A.flat_tasks(q)
     leaves = [(fid, t) for fid, t, par, _ in ft if A.is_leaf(t)]
     kind = rng.choice(["cycle", "self", "late-start", "early-end", "never-works", "zero", "huge", "neg", "far-end", "dup-dep", "late-gap",
-                       "alap-worktime-gap"])
+                       "alap-worktime-gap", "alap-behind-cycle"])
     fid, t = rng.choice(leaves)
     cmp_ok = True
     if kind == "cycle" and len(leaves) >= 2:
@@ -59,6 +59,16 @@ def make_infeasible(p, rng):
         other = rng.choice([f for f, _ in leaves if f != fid])
         if not other.startswith(fid) and not fid.startswith(other):
             t.setdefault("deps", []).append({"target": other, "ref": other, "gap": "400d"})
+        cmp_ok = False
+    elif kind == "alap-behind-cycle" and len(leaves) >= 3:
+        # a dependency cycle that a backward-scheduled task with a fixed end depends on: the walk that marks predecessors as
+        # ALAP must come back from the cycle
+        (f1, t1), (f2, t2), (f3, t3) = rng.sample(leaves, 3)
+        t1.setdefault("deps", []).append({"target": f2, "ref": f2})
+        t2.setdefault("deps", []).append({"target": f1, "ref": f1})
+        t3.setdefault("deps", []).append({"target": f1, "ref": f1})
+        t3["mode"] = "alap"
+        t3["end"] = q["start"] + rng.choice([3, 5, 8]) * D + 17 * H
         cmp_ok = False
     elif kind == "alap-worktime-gap" and len(leaves) >= 2:
         # a working-time gap (gaplength) far longer than the working time there is, on an edge of a backward-scheduled
